@@ -1369,6 +1369,10 @@ class XMLSchemaBase(XsdValidator, ElementPathMixin[Union[SchemaType, XsdElement]
                     yield context.missing_element_error(validation, self, elem, path, schema_path)
                     return
 
+            if elem is not resource.root and context.level:
+                # a depth-level element is decoded without its parent group: push its xmlns declarations
+                context.converter.set_xmlns_context(elem, context.level)
+
             try:
                 xsd_element.raw_decode(elem, validation, context)
             except XMLSchemaStopValidation:
